@@ -77,10 +77,12 @@ def install_canaries():
 
 
 def digest():
+    """Observable global state that parsing/building must leave alone (contents, not object identities,
+    so that a harmless internal cache in the parser module is not an alarm)."""
     import fsic.parser as P
-    return (tuple(id(f) for f in warnings.filters), repr(sorted(np.geterr().items())), os.getcwd(),
-            tuple(sorted((k, id(v)) for k, v in P.__dict__.items() if not k.startswith('__'))), repr(sorted(P.replacement_function_names.items())),
-            len(builtins.__dict__))
+    simple = {k: repr(v) for k, v in P.__dict__.items() if not k.startswith('__') and isinstance(v, (str, int, float, bool, tuple, dict, list, type(None)))}
+    return (tuple((f[0], repr(f[1]), f[2].__name__, repr(f[3]), f[4]) for f in warnings.filters), repr(sorted(np.geterr().items())), os.getcwd(),
+            tuple(sorted(simple.items())), len(builtins.__dict__), tuple(sys.path[:3]))
 
 
 def ref_split(script):
